@@ -79,6 +79,9 @@ class ExprMixin:
       e = e.get('__parent__')
     if name in self.ghost:
       return self.ghost[name]
+    if name in self.reg.ghost_factories:
+      self.reg.ghost_factories[name](self)
+      return self.ghost[name]
     sp = self.reg.spec_fns.get(name)
     if sp is not None:
       return VFn(name, impl=sp)
